@@ -69,6 +69,20 @@ def rule_b2(ctx, pl: Pipeline, rule_id: str = "C06-B2") -> None:
     ctx.require(idstore is not None, "data_splitter no longer assigns the id column")
     v = idstore.value
     positional = False
+    if isinstance(v, ast.Name):
+        # the labels are prepared in a local, possibly per branch of `data_name is None`: take the branch for None
+        scfg0 = CFG(spl.node)
+        cands = []
+        for st_, val, _i in assignments_to(spl, v.id):
+            none_branch = True
+            for c, pol in scfg0.guards(scfg0.node_of(st_)):
+                nc = normal_compare(c, pol)
+                if nc is not None and isinstance(nc[2], ast.Constant) and nc[2].value is None and "data_name" in unparse(nc[0]):
+                    none_branch = nc[1] in ("is", "==")
+            if none_branch:
+                cands.append(val)
+        if len(cands) == 1:
+            v = cands[0]
     if isinstance(v, ast.ListComp) and len(v.generators) == 1 and not v.generators[0].ifs:
         g = v.generators[0]
         if unparse(g.iter) in ("self.data.index", "range(len(self.data))") and isinstance(g.target, ast.Name):
